@@ -79,3 +79,63 @@ class WalkSuite(Suite):
         if op["target"]:
             out.append({"op": "walk", "tree": tree, "target": ""})
         return out
+
+
+class SubWalkSuite(Suite):
+    name = "subwalk"
+    needs_root = True
+    rule = ("composite file systems (SubDirFS) of 1..4 named sub-roots (names from the prefix-related alphabet: a, a.b, a-b, ab …), each a materialised tree with "
+            "hard-link groups and absolute/relative symlinks; walked from the top; vs the Lean composite-walk model; non-trivial = >= 2 sub-roots, distinct")
+
+    def gen(self, rng, tier):
+        n = {"quick": 150, "thorough": 3000, "search": 60}[tier]
+        ops = []
+        for _ in range(n):
+            names = rng.sample([b"a", b"a.b", b"a-b", b"ab", b"b", b"a b", b"z", b"\xc3\xa9", b"A"], rng.randint(1, 4))
+            dirs = []
+            for nm in names:
+                tree = gen.disk_tree(rng, rng.choice([3, 8, 15]), 3, types=("dir", "file", "symlink", "hardlink", "fifo"), xattrs=False)
+                dirs.append({"name": hx(nm), "uid": rng.choice([0, 1000]), "tree": tree})
+            ops.append({"op": "subwalk", "dirs": dirs})
+        return ops
+
+    def prepare_model(self, ops, impl=None):
+        out = []
+        for k, o in enumerate(ops):
+            i = impl[k] if impl else {}
+            out.append({"op": "subwalk", "dirs": i.get("dirs", []) if isinstance(i, dict) else []})
+        return out
+
+    def judge(self, op, impl, model):
+        if "dirs" not in impl or impl.get("newerr"):
+            return Verdict(True, None, "skipped: %s" % str(impl)[:200])
+        if impl.get("walkerr"):
+            return Verdict(False, False, "composite walk failed: %s" % impl["walkerr"])
+        io = [norm_stat(s) for s in (impl.get("out") or [])]
+        mo = [norm_stat(s) for s in (model.get("m") or [])]
+        agree = io == mo and all(s.get("cb") == s.get("p") for s in impl.get("out") or [])
+        note = ""
+        if not agree:
+            for a, b in zip(io + [None] * len(mo), mo + [None] * len(io)):
+                if a != b:
+                    note = "first difference impl=%s model=%s" % (a, b)
+                    break
+        # the property: each sub-walk prefixed with its name, link names included; ascending for plain names
+        ok = agree and model.get("ascending") is not False
+        return Verdict(agree, ok if not agree or model.get("ascending") is False else True, note)
+
+    def nontrivial(self, op, impl, model):
+        return len(op["dirs"]) >= 2
+
+    def shrink(self, op):
+        out = []
+        for i in range(len(op["dirs"])):
+            if len(op["dirs"]) > 1:
+                out.append({"op": "subwalk", "dirs": op["dirs"][:i] + op["dirs"][i + 1:]})
+            t = op["dirs"][i]["tree"]
+            for j in range(len(t)):
+                p = t[j]["p"]
+                t2 = [e for e in t if e["p"] != p and not e["p"].startswith(p + "2f") and e.get("ln") != p]
+                d2 = dict(op["dirs"][i], tree=t2)
+                out.append({"op": "subwalk", "dirs": op["dirs"][:i] + [d2] + op["dirs"][i + 1:]})
+        return out
